@@ -78,6 +78,53 @@ Theorem C44_noninterference : forall e u u' o o',
 Proof. exact query_fields_own. Qed.
 Print Assumptions C44_noninterference.
 
+(** the addr list: entry i of the addr parameters is InitAddress[i+1], mapped on its own with the URL's host as the
+    only context (a fold over the list with the URL host fixed: no entry influences another); an entry with host and
+    port is taken as it is; an entry without host takes the URL's host (localhost if none) and a missing port 6379 *)
+Theorem C44_addr_list : forall e u o, parse_url e u = Ok o ->
+  forall i a, nth_error (q_all (query u) (b "addr")) i = Some a ->
+  nth_error (init_address o) (S i) = Some (snd (parse_addr e (host u) a)) /\
+  List.length (init_address o) = S (List.length (q_all (query u) (b "addr"))).
+Proof. exact addr_entries. Qed.
+Print Assumptions C44_addr_list.
+
+Theorem C44_addr_entry : forall e uhost a h p, split_host_port e a = (h, p) ->
+  (h <> [] -> p <> [] -> snd (parse_addr e uhost a) = join_host_port h p) /\
+  (h = [] -> snd (parse_addr e uhost a) =
+     join_host_port (match uhost with [] => b "localhost" | _ => uhost end) (match p with [] => b "6379" | _ => p end)).
+Proof.
+  intros e uhost a h p H. split.
+  - intros Hh Hp. now apply (addr_entry_hosted e uhost a h p).
+  - intros ->. now apply addr_entry_hostless.
+Qed.
+Print Assumptions C44_addr_entry.
+
+(** Full statement of the documented rule ("an addr entry without a host takes the URL's host name, one without a port
+    takes 6379") is REFUTED by the code in two characterised classes (known findings, not repaired):
+    an entry without a port is rejected as a whole by net.SplitHostPort, so its host is replaced by the URL's host too;
+    and the default host is u.Host verbatim, including the URL's own port or brackets. *)
+Theorem C44_addr_rule_refuted :
+  let e := mkEnv (fun s => if bytes_eqb s (b "h1:7000") then (b "h1", b "7000") else if bytes_eqb s (b ":7001") then ([], b "7001") else ([], []))
+                 (fun _ => None) (fun s => s) in
+  (* redis://h1?addr=h3  gives h1:6379 twice *)
+  parse_url e (mkUrl (b "redis") None (b "h1") [] [(b "addr", b "h3")]) =
+    Ok (mkOpts [b "h1:6379"; b "h1:6379"] None false [] [] 0%Z 0%Z 0%Z false false false [] []) /\
+  (* redis://h1:7000?addr=:7001  gives [h1:7000]:7001 *)
+  parse_url e (mkUrl (b "redis") None (b "h1:7000") [] [(b "addr", b ":7001")]) =
+    Ok (mkOpts [b "h1:7000"; b "[h1:7000]:7001"] None false [] [] 0%Z 0%Z 0%Z false false false [] []).
+Proof. vm_compute. split; reflexivity. Qed.
+Print Assumptions C44_addr_rule_refuted.
+
+Theorem C44_addr_rule_characterised : forall e uhost a,
+  (split_host_port e a = ([], []) ->
+     snd (parse_addr e uhost a) = join_host_port (match uhost with [] => b "localhost" | _ => uhost end) (b "6379")) /\
+  (forall p, split_host_port e a = ([], p) -> p <> [] -> contains_byte 58 uhost = true ->
+     snd (parse_addr e uhost a) = (91 :: uhost) ++ (93 :: 58 :: p)).
+Proof. intros e uhost a. split; [apply addr_portless_loses_host|apply addr_default_host_verbatim]. Qed.
+Print Assumptions C44_addr_rule_characterised.
+
+(** outside these classes (entries with a port; a URL host that is a plain name) the rule holds: [C44_addr_entry] *)
+
 (** adding or changing a pair with another key does not change the values of a key *)
 Theorem C44_other_keys_invisible : forall q k k' v, bytes_eqb k' k = false -> q_all ((k', v) :: q) k = q_all q k.
 Proof. exact q_all_other. Qed.
